@@ -1,6 +1,6 @@
 package transport
 
-//vcheck:bounds frame: one raft or snapshot frame with a payload of 1..3 symbolic bytes written by the real writeMessage into an in-memory connection; then nothing, one byte of the header or payload altered (symbolic position, symbolic non-zero xor mask), or the stream cut at a symbolic length; read back by the real readMagicNumber/readMessage
+//vcheck:bounds frame: one raft or snapshot frame with a payload of 1..5 symbolic bytes, the per-connection receive block size (package variable recvBufSize, 2 MiB in production) scaled to 2 so that the payload is received in one block, exactly one block, or several blocks; caller buffer smaller or larger than the payload; written by the real writeMessage into an in-memory connection; then nothing, one byte of the header or payload altered (symbolic position, symbolic non-zero xor mask), or the stream cut at a symbolic length; read back by the real readMagicNumber/readMessage
 //vcheck:stub frame: net.Conn = byte buffer (deadlines ignored); crc32 = uninterpreted function with the one-byte-difference axiom (CRC-32 detects every error burst of at most 32 bits)
 
 import (
@@ -33,9 +33,10 @@ func (c *vConn) SetWriteDeadline(time.Time) error { return nil }
 // C13 (transport frames): an unaltered frame is delivered with exactly its
 // payload and method; a frame whose header or payload was altered in one byte,
 // or that was cut short anywhere, is rejected rather than delivered.
-//vcheck: reach=delivered,altered-header,altered-payload,truncated,done workers=8
+//vcheck: reach=delivered,altered-header,altered-payload,truncated,multi-block,done workers=8
 func VHarness_C13_TransportFrame() {
-	n := 1 + vChoose("payloadLen", 3)
+	recvBufSize = 2
+	n := 1 + vChoose("payloadLen", 5)
 	payload := make([]byte, n)
 	for i := range payload {
 		payload[i] = vU8("p")
@@ -48,6 +49,9 @@ func VHarness_C13_TransportFrame() {
 	vAssert(writeMessage(out, requestHeader{method: method}, payload, make([]byte, requestHeaderSize), false) == nil, "write-ok")
 	wire := out.data
 	vAssert(len(wire) == len(magicNumber)+requestHeaderSize+n, "frame-length")
+	if n > 2 {
+		vReach("multi-block")
+	}
 	mode := vChoose("perturbation", 3)
 	in := &vConn{data: append([]byte(nil), wire...)}
 	switch mode {
@@ -70,7 +74,7 @@ func VHarness_C13_TransportFrame() {
 	var h requestHeader
 	var got []byte
 	if err == nil {
-		h, got, err = readMessage(in, make([]byte, requestHeaderSize), make([]byte, 2), false)
+		h, got, err = readMessage(in, make([]byte, requestHeaderSize), make([]byte, 2+6*vChoose("bigbuf", 2)), false)
 	}
 	if mode == 0 {
 		vAssert(err == nil, "unaltered-frame-delivered")
